@@ -1080,18 +1080,10 @@ def validation_never_falls_off_the_end(ctx):
             done.add(ma.f.qualname)
             f, cfg = ma.f, ma.cfg
             ctx.analysed(f)
-            bad = []
-            for a, lab in cfg.pred.get(cfg.exit, []) if isinstance(cfg.pred.get(cfg.exit, []), list) else []:
-                node = cfg.nodes[a]
-                if lab == 'exc':
-                    continue
-                st = node.ast
-                if isinstance(st, ast.Return) and st.value is not None and not (isinstance(st.value, ast.Constant) and st.value.value is None):
-                    continue
-                bad.append(node)
-            ctx.check(not bad, f'{f.qualname}:every normal exit returns a value', bad[0].ast if bad and bad[0].ast is not None else f.node,
+            bad = can_end_without_value(cfg, f.node)
+            ctx.check(not bad, f'{f.qualname}:every normal exit returns a value', f.node,
                       'all normal exits are `return <value>`',
-                      f'a normal exit of {f.name} is not a `return <value>` (after `{src(bad[0].ast) if bad and bad[0].ast is not None else "?"}`): '
+                      f'a normal exit of {f.name} is reachable without a `return <value>`: '
                       'the caller gets None instead of a validated value or a bad-value error', f)
 
 
